@@ -113,6 +113,8 @@ pub struct Isolation {
     pub env: Vec<(String, String)>,
     /// cases per child process (None = automatic); Some(1) = a fresh process for every case
     pub chunk: Option<usize>,
+    /// stop scheduling further cases after this many worker deaths
+    pub max_deaths: usize,
 }
 
 #[derive(Debug)]
@@ -131,7 +133,7 @@ pub fn run_isolated(ctx: &Ctx, set: &dyn CaseSet, iso: &Isolation, shards: usize
     // a tree on which workers keep dying is already refuted: stop after a few deaths instead of
     // spending the CPU budget of every remaining case
     let deaths = AtomicUsize::new(0);
-    let max_deaths = 4;
+    let max_deaths = iso.max_deaths.max(1);
     let chunk = iso.chunk.unwrap_or_else(|| (n / (shards * 4).max(1)).clamp(1, 20_000));
     let accs: Vec<Acc> = std::thread::scope(|s| {
         let hs: Vec<_> = (0..shards.max(1))
